@@ -101,8 +101,10 @@ func (hs *clientHandshakeStateTLS13) decompressCert(m utlsCompressedCertificateM
 	rawMsg[2] = uint8(m.uncompressedLength >> 8)
 	rawMsg[3] = uint8(m.uncompressedLength)
 
-	n, err := decompressed.Read(rawMsg[4:])
-	if err != nil && !errors.Is(err, io.EOF) {
+	// A decoder may return the decompressed data in several pieces (e.g. at a flush point or
+	// every 32 KiB), so keep reading until the declared length has been received.
+	n, err := io.ReadFull(decompressed, rawMsg[4:])
+	if err != nil && !errors.Is(err, io.EOF) && !errors.Is(err, io.ErrUnexpectedEOF) {
 		c.sendAlert(alertBadCertificate)
 		return nil, err
 	}
@@ -112,6 +114,16 @@ func (hs *clientHandshakeStateTLS13) decompressCert(m utlsCompressedCertificateM
 		// https://datatracker.ietf.org/doc/html/rfc8879#section-4
 		c.sendAlert(alertBadCertificate)
 		return nil, fmt.Errorf("decompressed len (%d) does not match specified len (%d)", n, m.uncompressedLength)
+	}
+	// The decompressed data must also end here: anything further means that the actual length
+	// exceeds the specified length (or that the compressed stream is corrupt).
+	var probe [1]byte
+	if extra, err := io.ReadFull(decompressed, probe[:]); extra > 0 {
+		c.sendAlert(alertBadCertificate)
+		return nil, fmt.Errorf("decompressed len exceeds specified len (%d)", m.uncompressedLength)
+	} else if !errors.Is(err, io.EOF) {
+		c.sendAlert(alertBadCertificate)
+		return nil, err
 	}
 	certMsg := new(certificateMsgTLS13)
 	if !certMsg.unmarshal(rawMsg) {
